@@ -3671,6 +3671,11 @@ request_submit(struct request *const req) {
 	} else {
 		evdns_request_insert(req, &base->req_waiting_head);
 		base->global_requests_waiting++;
+		/* A request that replaces a finished one (TCP fallback, next
+		 * search domain) was created while its predecessor still held
+		 * an inflight slot; the slot is free by now, so do not leave
+		 * the new request waiting for some unrelated request to end. */
+		evdns_requests_pump_waiting_queue(base);
 	}
 }
 
